@@ -186,7 +186,7 @@ class Explorer:
                 report.paths += 1
             except RecursionError:
                 report.unsupported.append('recursion limit in engine')
-            except Exception:  # noqa  engine crash
+            except BaseException:  # noqa  engine crash
                 report.crash = traceback.format_exc()
                 set_cur(None)
                 return
